@@ -489,6 +489,11 @@ def run(ctx):
     r5.ok("functions scanned", "%d header codec functions" % n, "src/common")
     r5.floor(1, "scan")
 
+    # ---- R7 first LCT word + value-dependent lengths ------------------------------------------------------
+    r7 = ctx.rule("C06.R7", "LCT first word: every flag sits at its RFC 5651 bit position on both sides; the bytes written / read for CCI, TSI, TOI are "
+                            "4*(C+1), 4*S+2*H, 4*O+2*H of the SAME flag values, and HDR_LEN = 2+O+S+H+C (structure of the value-dependent widths)", "E5 + affine forms + E4 leaf widths")
+    lct_first_word_rule(ctx, r7)
+
     # ---- R6 constants ---------------------------------------------------------------------------------
     r6 = ctx.rule("C06.R6", "push_fdt receives version 2 (RFC 6726) or 1 (RFC 3926) selected by the profile, and the packet's fdt_id", "ARG")
     for s in find_calls(prog, r"^common::alc::push_fdt$"):
@@ -505,3 +510,185 @@ def run(ctx):
         else:
             r6.violation("new_alc_pkt push_fdt id", "id argument derives from %s" % sorted(idsrc)[:6], s.loc)
     r6.floor(2, "push_fdt arguments")
+
+
+# ---------------------------------------------------------------------------------------------------------------------
+# R7: the first LCT word and the value-dependent field lengths (structure only: which flag drives which length)
+
+RFC_LCT_WORD = [("V", 4), ("C", 2), ("PSI", 2), ("S", 1), ("O", 2), ("H", 1), ("Res", 2), ("A", 1), ("B", 1), ("HDR_LEN", 8), ("CP", 8)]
+
+
+def lct_first_word_rule(ctx, rule):
+    from .. import polarity
+    prog = ctx.prog
+    w = prog.fn("common::lct::push_lct_header")
+    ctx.analysed(w.path)
+    sl = Slicer(w.body)
+    r = ranges.analyse(prog, w)
+    # interval of each named local at the function exits -> declared leaf widths (h, o, s, c, a, b are narrower than their type)
+    widths = {}
+    for (bb, st) in r.exit_states:
+        for k, v in st.iv.items():
+            m = re.match(r"^(\w+)'\d+$", k)
+            if m and v[0] >= 0 and v[1] != ranges.INF:
+                widths[m.group(1)] = max(widths.get(m.group(1), 0), int(v[1]).bit_length())
+
+    # PSI is a 2-bit field fed from a u8 parameter: every caller must pass a constant in 0..3
+    psi_ok = True
+    for s_ in find_calls(prog, r"^common::lct::push_lct_header$"):
+        a = s_.expr[2][1]
+        if a[0] == "const" and isinstance(a[2], int) and 0 <= a[2] <= 3:
+            rule.ok("%s passes PSI=%s" % (s_.func.root().path.split("::")[-1], a[2]), "fits the 2-bit PSI field", s_.loc)
+        else:
+            psi_ok = False
+            rule.violation("%s PSI argument" % s_.func.root().path.split("::")[-1], "PSI argument %s may exceed the 2-bit field and overwrite C / V" % show(a, 40), s_.loc)
+    if psi_ok:
+        widths["psi"] = 2
+
+    def lw(name):
+        return widths.get(name) if name in widths and widths[name] < 32 else None
+
+    ev = bits.Eval(leaf_namer=lambda e: show(e, 80), leaf_width=lw)
+    seqs = append_sequences(prog, w)
+    seqs = [q for q in seqs if any(k == "extend" for k, _, _ in q)]
+    if len(seqs) != 1 or len(seqs[0]) != 4:
+        rule.violation("push_lct_header append sequence", "expected exactly word + CCI + TSI + TOI appends, found %s" % [len(q) for q in seqs], loc(w.sp))
+        return
+    vd0 = sl.var_defs()
+    consts = set(n for n, ds in vd0.items() if len(ds) == 1 and ds[0][0] == "" and ds[0][1][0] == "const")
+    word = sl.expand(seqs[0][0][1], stop=set(widths) - {"lct_header"} - consts)
+    try:
+        by = ev.bytes_of(word)
+    except bits.Unknown as u:
+        rule.violation("push_lct_header first word", "cannot evaluate: %s" % u, loc(w.sp))
+        return
+    allb = [b for byte in by for b in byte]
+    rs = bits.runs(allb)
+    # map RFC fields to what sits there
+    got = {}
+    off = 0
+    flat = []
+    for r_ in rs:
+        for i in range(r_[1]):
+            flat.append(r_)
+    pos = 0
+    problems = []
+    flag_leaf = {}
+    for name, wd in RFC_LCT_WORD:
+        seg = allb[pos:pos + wd]
+        rr = bits.runs(seg)
+        if name == "V":
+            ok = len(rr) == 1 and rr[0][0] == "const" and rr[0][2] == 1
+        elif name == "Res":
+            ok = len(rr) == 1 and rr[0][0] == "const" and rr[0][2] == 0
+        else:
+            ok = len(rr) == 1 and rr[0][0] == "field" and rr[0][1] == wd and rr[0][3] == 0 or \
+                (len(rr) == 2 and rr[0][0] == "const" and rr[0][2] == 0 and rr[1][0] == "field" and rr[1][3] == 0)
+            if ok:
+                flag_leaf[name] = rr[-1][2]
+        key = "push_lct_header first word %s" % name
+        if ok:
+            rule.ok(key, "bits %d..%d: %s" % (31 - pos, 32 - pos - wd, rr), loc(w.sp))
+        else:
+            rule.violation(key, "RFC 5651 field %s (bits %d..%d) carries %s" % (name, 31 - pos, 32 - pos - wd, rr), loc(w.sp))
+        pos += wd
+    # lengths of the three variable fields as affine forms over the flag leaves
+    def appended(e):
+        """number of bytes of  &arr[start..]  as an affine form"""
+        ex = sl.expand(e, stop=set(flag_leaf.values()))
+        for c in walk(ex):
+            if c[0] == "call" and re.search(r"Index.*::index$", c[1]) and len(c[2]) == 2:
+                arr, idx = bits.strip(c[2][0]), bits.strip(c[2][1])
+                n = None
+                ty = arr[3] if (arr[0] in ("var", "tmp") and len(arr) > 3 and isinstance(arr[3], str)) else ""
+                m = re.search(r"\[u8; (\d+)\]", ty or "")
+                if m:
+                    n = int(m.group(1))
+                m2 = re.search(r"num::<impl (\w+)>::to_be_bytes$", arr[1]) if arr[0] == "call" else None
+                if m2:
+                    n = bits.WIDTH[m2.group(1)] // 8
+                if idx[0] == "aggr" and "RangeFrom" in idx[1] and n is not None:
+                    st_ = idx[3][0]
+                    # replace len(arr) by the constant
+                    def sub(z):
+                        if isinstance(z, tuple) and z and z[0] == "call" and re.search(r"::len$", z[1]):
+                            return ("const", "usize", n)
+                        if isinstance(z, tuple):
+                            return tuple(sub(q) if isinstance(q, tuple) else q for q in z)
+                        return z
+                    f, c0 = polarity.affine(sub(st_))
+                    return {k: -v for k, v in f.items()}, n - c0
+        return None
+    want = {}
+    if all(k in flag_leaf for k in ("C", "S", "O", "H")):
+        C, S, O, H = (flag_leaf[k] for k in ("C", "S", "O", "H"))
+        want = {"CCI": ({C: 4}, 4), "TSI": ({S: 4, H: 2}, 0), "TOI": ({O: 4, H: 2}, 0)}
+    for (nm, (kind, e, sp)) in zip(("CCI", "TSI", "TOI"), seqs[0][1:]):
+        got_ = appended(e)
+        key = "push_lct_header %s length" % nm
+        if got_ is None or nm not in want:
+            rule.violation(key, "appended length not recognised (%s)" % show(e, 80), loc(w.sp))
+        elif ({k: v for k, v in got_[0].items() if v}, got_[1]) == want[nm]:
+            rule.ok(key, "bytes = %s" % (want[nm],), loc(w.sp))
+        else:
+            rule.violation(key, "the %s field is written with %s bytes but the flags announce %s (RFC 5651: CCI 32*(C+1), TSI 32*S+16*H, TOI 32*O+16*H bits): "
+                                "every later field of the packet is displaced" % (nm, got_, want[nm]), loc(w.sp))
+    # HDR_LEN = 2 + O + S + H + C
+    if "HDR_LEN" in flag_leaf and want:
+        hl = None
+        for name, defs in sl.var_defs().items():
+            if name == flag_leaf["HDR_LEN"] or flag_leaf["HDR_LEN"].startswith(name):
+                for pj, d, _bb in defs:
+                    dd = sl.expand(d, stop=set(flag_leaf.values()))
+                    while dd[0] == "cast":
+                        dd = dd[2]
+                    hl = polarity.affine(dd)
+        exp = ({flag_leaf["O"]: 1, flag_leaf["S"]: 1, flag_leaf["H"]: 1, flag_leaf["C"]: 1}, 2)
+        if hl is not None and hl == exp:
+            rule.ok("push_lct_header HDR_LEN", "2 + O + S + H + C", loc(w.sp))
+        else:
+            rule.violation("push_lct_header HDR_LEN", "HDR_LEN is %s, expected %s" % (hl, exp), loc(w.sp))
+    # ---- reader ------------------------------------------------------------------------------------------------
+    rd = prog.fn("common::lct::parse_lct_header")
+    ctx.analysed(rd.path)
+    rsl = Slicer(rd.body)
+
+    def bsrc(e):
+        e = bits.strip(e)
+        if e[0] == "var" and e[1] == "data" and e[2] in ("", "[_]"):
+            return "data"
+        return None
+
+    rev = bits.Eval(byte_source=bsrc)
+    offs, _ = offsets([(n, wd, None) for n, wd in RFC_LCT_WORD])
+    names = {"c": "C", "s": "S", "o": "O", "h": "H", "a": "A", "b": "B", "cp": "CP", "version": "V"}
+    vd = rsl.var_defs()
+    for local, fld in sorted(names.items()):
+        key = "parse_lct_header %s" % fld
+        ds = [d for (pj, d, _bb) in vd.get(local, []) if pj == ""]
+        if len(ds) != 1:
+            rule.violation(key, "local `%s` not found / not single-assignment" % local, loc(rd.sp))
+            continue
+        try:
+            rr = bits.runs(reader_bits(rev, rsl.expand(ds[0], stop={"data"})))
+        except bits.Unknown as u:
+            rule.violation(key, "cannot evaluate: %s" % u, loc(rd.sp))
+            continue
+        wr = wire_run(rr)
+        if wr == offs[fld]:
+            rule.ok(key, "wire bits %d..%d" % (wr[0], wr[0] + wr[1] - 1), loc(rd.sp))
+        else:
+            rule.violation(key, "read from %s, RFC 5651 places %s at bits %d..%d" % (wr or rr, fld, offs[fld][0], offs[fld][0] + offs[fld][1] - 1), loc(rd.sp))
+    rwant = {"cci_len": ({"c": 4}, 4), "tsi_len": ({"s": 4, "h": 2}, 0), "toi_len": ({"o": 4, "h": 2}, 0)}
+    for local, exp in sorted(rwant.items()):
+        key = "parse_lct_header %s" % local
+        ds = [d for (pj, d, _bb) in vd.get(local, []) if pj == ""]
+        if len(ds) != 1:
+            rule.violation(key, "local not found", loc(rd.sp))
+            continue
+        got_ = polarity.affine(rsl.expand(ds[0], stop={"c", "s", "o", "h"}))
+        if ({k: v for k, v in got_[0].items() if v}, got_[1]) == exp:
+            rule.ok(key, "= %s" % (exp,), loc(rd.sp))
+        else:
+            rule.violation(key, "%s = %s, RFC formula is %s" % (local, got_, exp), loc(rd.sp))
+    rule.floor(20, "first-word fields and length formulas")
